@@ -26,7 +26,8 @@ EXPLANATION = (
     'database; R-C08.5 the labels a batch executes are exactly the labels of '
     'its graph nodes for that task; R-C08.6 a batch never calls '
     'task.execute() with a possibly-None sql (which would fall back to the '
-    'SQL of all pending evolutions of the task).')
+    'SQL of all pending evolutions of the task); '
+    'R-C08.3 also: the batch builder generates no SQL for apps without a stored signature, and the raw sequence recorded for such an app is reduced by the labels already recorded.')
 NOT_DECIDED = (
     'Exactly-once over histories of runs (needs executing several runs '
     'against one database).')
